@@ -69,6 +69,10 @@ def check(ctx, F):
     if any(bb["name"] == "operator bool" and bb.get("cls") in ("Bits", "CBits") for bb in F.bodies.values()):
         C18._FN["F"] = F
         C18.check_views(C03._Alias(ctx, {"C18.views": "C02.dispatch"}), F)
+    # a head-less region's anonymous head reports what a headed one that overrides nothing reports (its own prong in the parent): utilize / change
+    # resolution over *Peers sub-regions stores that prong
+    if any(bb["name"] == "deepReportUtilize" for bb in F.bodies.values()):
+        C01.check_defaults(C03._Alias(ctx, {"C02.kind-table": "C02.kind-table"}), F, "C02.kind-table", ("deepReportChange", "deepReportUtilize"))
     check_resumable_memory(ctx, F)
     check_reset(ctx, F)
     check_idle(ctx, F)
